@@ -161,6 +161,46 @@ func genFootnote(p, d, fd string, shape int) Input {
 	return mkInput("footnote", b.doc(top))
 }
 
+// running elements (css-gcpm-3 §1.2): an element R with `position: running(name)` and specified display
+// d inside a parent with display p.
+//
+//	shape 0: P[ R[text] text ]                      R first, inline content ends the container
+//	shape 1: P[ text R[text] text ]                 R between text
+//	shape 2: P[ R[ text R2[text] ] <span>text</span> ]   R2 (display block) a running element inside R
+//	shape 3: P[ R[ text <div block>text</div> ] <div block>text</div> text ]   next to an ordinary block; mixed content in R
+//	shape 4: P[ R[text] R2[text] text ]             two running elements (R2 display block), then text
+const nRunShapes = 5
+
+func running(n *Node) *Node {
+	n.Pos = fmt.Sprintf("running(r%d)", n.ID)
+	n.Float, n.FD = "", ""
+	return n
+}
+
+func genRunning(p, d string, shape int) Input {
+	b := newBuilder()
+	r := running(b.el("div", d))
+	var top *Node
+	switch shape {
+	case 0:
+		r.Kids = []*Node{b.tk()}
+		top = b.el("div", p, r, b.tk())
+	case 1:
+		r.Kids = []*Node{b.tk()}
+		top = b.el("div", p, b.text(b.token()+" "), r, b.text(" "+b.token()))
+	case 2:
+		r.Kids = []*Node{b.tk(), running(b.el("div", "block", b.tk()))}
+		top = b.el("div", p, r, b.el("span", "", b.tk()))
+	case 3:
+		r.Kids = []*Node{b.tk(), b.el("div", "block", b.tk())}
+		top = b.el("div", p, r, b.el("div", "block", b.tk()), b.tk())
+	default:
+		r.Kids = []*Node{b.tk()}
+		top = b.el("div", p, r, running(b.el("div", "block", b.tk())), b.tk())
+	}
+	return mkInput("running", b.doc(top))
+}
+
 // ---- random trees
 
 type rgen struct {
@@ -211,6 +251,11 @@ func (g *rgen) decorate(n *Node) {
 		n.Pos = "absolute"
 	case x < 0.16:
 		n.Pos = "fixed"
+	}
+	if r.Float64() < 0.06 {
+		// running element (css-gcpm-3 §1.2), with any display value including none; never floated
+		// nor a footnote (how float combines with running() is not defined)
+		running(n)
 	}
 	if r.Float64() < 0.10 {
 		n.LSP = pick(r, []string{"inside", "outside"})
@@ -316,6 +361,14 @@ func (g *rgen) element(depth int) *Node {
 	g.cellAttrs(n)
 	if depth >= 6 {
 		n.Kids = []*Node{g.b.tk()}
+	} else if sd := specifiedDisplay(n); isRunningNode(n) && (sd == "inline" || sd == "inline list-item") && r.Float64() < 0.95 {
+		// a running inline element holding an in-flow block-level box is the open finding
+		// F-C09-running-inline-split-by-block: 19 of 20 running inline elements get inline content only,
+		// so that the known hits do not take the other clauses of too many trees out of the run
+		n.Kids = []*Node{g.textKid()}
+		if r.Float64() < 0.5 {
+			n.Kids = append(n.Kids, g.b.el("span", "", g.b.tk()), g.textKid())
+		}
 	} else {
 		n.Kids = g.kids(depth)
 	}
